@@ -1,4 +1,6 @@
 import YakModel.Scan
+import YakModel.Storage
+import YakModel.Cursor
 import YakModel.Shape
 /-!
 # Transcript checker for `seqdrv` (`yakmodel seq`)
@@ -38,40 +40,20 @@ def idStr (p : List UInt8) (i : Nat) : String := s!"{bytesHex p}#{i}"
 def refStr (r : NodeRef) : String :=
   s!"{idStr r.pfx r.idx}:{r.vins % 2^29}:{r.vsplit % 2^29}:{refFlags r}"
 
-structure Cursor where
-  storage : List UInt8
-  lk : Key
-  le : EP
-  rk : Key
-  re : EP
-  r2l : Bool
-  last : Option Key
-deriving Repr, Inhabited
-
 structure Sys where
   cfg : Cfg := {}
   capacity : Nat := 8
   storages : List (List UInt8 × Tree) := []
   sessions : List String := []
-  cursors : List (String × Cursor) := []
+  cursors : List (String × List UInt8 × Cursor) := []
 deriving Inhabited
 
-def Sys.tree? (s : Sys) (n : List UInt8) : Option Tree := (s.storages.find? (·.1 == n)).map (·.2)
+def Sys.tree? (s : Sys) (n : List UInt8) : Option Tree := Storage.find s.storages n
 def Sys.setTree (s : Sys) (n : List UInt8) (t : Tree) : Sys :=
-  { s with storages := s.storages.map (fun x => if x.1 == n then (n, t) else x) }
+  { s with storages := Storage.set s.storages n t }
 
 def parseEP : String → EP
   | "E" => .excl | "I" => .incl | _ => .inf
-
-/-- next entry of the cursor's interval after `last` in the cursor's direction -/
-def cursorNext (t : Tree) (c : Cursor) : Option (Key × Val) :=
-  let l := (content t).filter (fun kv => inInterval c.lk c.le c.rk c.re kv.1)
-  if c.r2l then
-    let l := match c.last with | some k => l.filter (fun (kv : Key × Val) => lexLt kv.1 k) | none => l
-    l.getLast?
-  else
-    let l := match c.last with | some k => l.filter (fun (kv : Key × Val) => lexLt k kv.1) | none => l
-    l.head?
 
 /-- model step for one op line: new system(s) and the expected result text. More than one system
     is returned only for a remove that unlinked middle leaves. -/
@@ -86,22 +68,22 @@ def stepOp (s : Sys) (w : List String) : List Sys × String :=
     match hexBytes? n with
     | none => ([s], "bad-op")
     | some n =>
-      if (s.tree? n).isSome then ([s], "WARN_UNIQUE_RESTRICTION")
-      else ([{ s with storages := s.storages ++ [(n, Tree.empty)] }], "OK")
+      let (st', rc) := Storage.create s.storages n
+      ([{ s with storages := st' }], statusStr rc)
   | ["delete", n] =>
     match hexBytes? n with
     | none => ([s], "bad-op")
     | some n =>
-      if (s.tree? n).isSome then ([{ s with storages := s.storages.filter (·.1 != n) }], "OK")
-      else ([s], "WARN_NOT_EXIST")
+      let (st', rc) := Storage.delete s.storages n
+      ([{ s with storages := st' }], statusStr rc)
   | ["find", n] =>
     match hexBytes? n with
     | none => ([s], "bad-op")
-    | some n => ([s], if (s.tree? n).isSome then "OK" else "WARN_NOT_EXIST")
+    | some n => ([s], statusStr (Storage.findStatus s.storages n))
   | ["list"] =>
     if s.storages.isEmpty then ([s], "WARN_NOT_EXIST 0")
     else
-      let names := (s.storages.map (·.1)).mergeSort (fun a b => !lexLt b a)
+      let names := Storage.list s.storages
       ([s], s!"OK {names.length}" ++ String.join (names.map (fun n => " " ++ bytesHex n)))
   | ["enter", id] =>
     if s.sessions.length < s.capacity then ([{ s with sessions := id :: s.sessions.filter (· != id) }], "OK")
@@ -168,30 +150,29 @@ def stepOp (s : Sys) (w : List String) : List Sys × String :=
   | ["iopen", c, n, lk, le, rk, re, r2l, _early] =>
     match hexBytes? n, hexBytes? lk, hexBytes? rk with
     | some n, some lk, some rk =>
-      let le := parseEP le; let re := parseEP re
       let s0 := { s with cursors := s.cursors.filter (·.1 != c) }
-      if !checkEmptyRange lk le rk re then ([s0], "ERR_BAD_USAGE")
-      else match s.tree? n with
-      | none => ([s0], "WARN_STORAGE_NOT_EXIST")
-      | some t =>
-        let (lk, le) := if le == .inf then (([] : Key), EP.incl) else (lk, le)
-        let cur : Cursor := ⟨n, lk, le, rk, re, r2l == "1", none⟩
-        match cursorNext t cur with
-        | some (k, v) => ([{ s0 with cursors := (c, { cur with last := some k }) :: s0.cursors }], s!"OK {bytesHex k}={valStr v}")
-        | none => ([{ s0 with cursors := (c, cur) :: s0.cursors }], "OK_SCAN_END")
+      match Cursor.open? lk (parseEP le) rk (parseEP re) (r2l == "1") with
+      | none => ([s0], "ERR_BAD_USAGE")
+      | some cur =>
+        match s.tree? n with
+        | none => ([s0], "WARN_STORAGE_NOT_EXIST")
+        | some t =>
+          match cur.next t with
+          | (some (k, v), cur') => ([{ s0 with cursors := (c, n, cur') :: s0.cursors }], s!"OK {bytesHex k}={valStr v}")
+          | (none, cur') => ([{ s0 with cursors := (c, n, cur') :: s0.cursors }], "OK_SCAN_END")
     | _, _, _ => ([s], "bad-op")
   | ["inext", c] =>
     match s.cursors.find? (·.1 == c) with
     | none => ([s], "no-cursor")
-    | some (_, cur) =>
-      match s.tree? cur.storage with
+    | some (_, n, cur) =>
+      match s.tree? n with
       | none => ([s], "ERR_MODEL")
       | some t =>
-        match cursorNext t cur with
-        | some (k, v) =>
-          ([{ s with cursors := s.cursors.map (fun x => if x.1 == c then (c, { cur with last := some k }) else x) }],
+        match cur.next t with
+        | (some (k, v), cur') =>
+          ([{ s with cursors := s.cursors.map (fun x => if x.1 == c then (c, n, cur') else x) }],
            s!"OK {bytesHex k}={valStr v}")
-        | none => ([s], "OK_SCAN_END")
+        | (none, _) => ([s], "OK_SCAN_END")
   | ["iclose", c] =>
     if (s.cursors.find? (·.1 == c)).isSome then ([{ s with cursors := s.cursors.filter (·.1 != c) }], "OK")
     else ([s], "no-cursor")
@@ -287,16 +268,41 @@ def splitAtTok (s : String) (tok : String) : String × String :=
   | a :: rest => (a, String.intercalate tok rest)
   | [] => (s, "")
 
-def stepLine (st : St) (line : String) : St × Option String :=
+/-- split "status rest" style results into comparable parts: returns (class, model, impl) triples -/
+def partsOf (opn : String) (exp got : String) : List (String × String × String) :=
+  let cut (s : String) (tok : String) : String × String :=
+    match s.splitOn tok with
+    | a :: rest => (a, if rest.isEmpty then "" else tok ++ String.intercalate tok rest)
+    | [] => (s, "")
+  match opn with
+  | "put" =>
+    let (e1, e2) := cut exp " mod "
+    let (g1, g2) := cut got " mod "
+    [("kv", e1, g1), ("putinfo", e2, g2)]
+  | "get" =>
+    let (e1, e2) := cut exp " nv "
+    let (g1, g2) := cut got " nv "
+    [("kv", e1, g1), ("getnv", e2, g2)]
+  | "remove" => [("kv", exp, got)]
+  | "scan" =>
+    let (e1, e2) := cut exp " nv "
+    let (g1, g2) := cut got " nv "
+    [("scan", e1, g1), ("scannv", e2, g2)]
+  | "iopen" | "inext" | "iclose" => [("iscan", exp, (cut got " cb ").1)]
+  | "create" | "delete" | "find" | "list" => [("storage", exp, got)]
+  | "enter" | "leave" => [("session", exp, got)]
+  | _ => [("misc", exp, got)]
+
+/-- one transcript line; returns the differences found as (class, message) -/
+def stepLine (st : St) (line : String) : St × List (String × String) :=
   if line.startsWith "> " then
     let w := words (line.drop 2).toString
     let cur := st.cands.headD {}
     let (nexts, exp) := stepOp cur w
-    -- any mutation invalidates the remembered dump of that storage
     let st := { st with cands := nexts, op := w, expect := exp }
     let st := bump st ("op:" ++ w.headD "")
     let st := if nexts.length > 1 then bump st "absorb_choice" else st
-    (st, none)
+    (st, [])
   else if line.startsWith "< " then
     let got := (line.drop 2).toString
     let opn := st.op.headD ""
@@ -307,47 +313,49 @@ def stepLine (st : St) (line : String) : St × Option String :=
         let fromDump := match st.lastDump.find? (·.1 == n) with
           | some (_, d) => memStr (memUsage d)
           | none => "no-dump"
-        if a != b then (st, some s!"mem_usage {a} differs from the walker's count {b}")
-        else if fromDump != a then (st, some s!"mem_usage {a} differs from the model over the dump {fromDump}")
-        else (bump st "mem_checked", none)
+        if a != b then (st, [("mem", s!"mem_usage {a} differs from the walker's count {b}")])
+        else if fromDump != a then (st, [("mem", s!"mem_usage {a} differs from the model over the dump {fromDump}")])
+        else (bump st "mem_checked", [])
       else if opn == "balance" then
         let w := words got
-        -- "live a b reach c d errs e"
         let errs := w.getD 7 "?"
         let strict := st.op.getD 1 "" == "strict"
-        if errs != "0" then (st, some s!"allocation ledger error: {got}")
+        if errs != "0" then (st, [("balance", s!"allocation ledger error: {got}")])
         else if strict && (w.getD 1 "" != w.getD 4 "x" || w.getD 2 "" != w.getD 5 "x") then
-          (st, some s!"live allocations differ from reachable objects: {got}")
-        else (bump st "balance_checked", none)
-      else if opn == "epoch" then (st, none)
-      else (st, some s!"unmodelled op {opn}")
+          (st, [("balance", s!"live allocations differ from reachable objects: {got}")])
+        else (bump st "balance_checked", [])
+      else if opn == "epoch" then (st, [])
+      else (st, [("misc", s!"unmodelled op {opn}")])
     else
-      let gotCmp := if opn == "iopen" || opn == "inext" then (splitAtTok got " cb ").1 else got
-      if gotCmp == st.expect then (st, none)
-      else (st, some s!"model={st.expect} impl={gotCmp}")
+      let ps := partsOf opn st.expect got
+      let bad := ps.filter (fun (_, e, g) => e != g)
+      let st := if opn == "scan" && (words got).getD 1 "0" != "0" then bump st "scan_nonempty" else st
+      (st, bad.map (fun (c, e, g) => (c, s!"model={e} impl={g}")))
   else if line.startsWith "D " then
     match words line with
     | ["D", n, k] =>
       match hexBytes? n, k.toNat? with
       | some n, some k =>
         if k == 0 then
-          -- the storage does not exist on the implementation side
-          if st.cands.all (fun s => (s.tree? n).isNone) then (st, none)
-          else (st, some s!"storage {bytesHex n} exists in the model but not in the implementation")
-        else ({ st with dumpName := some n, dumpLeft := k, dumpAcc := [] }, none)
-      | _, _ => (st, some "bad-line")
-    | _ => (st, some "bad-line")
+          if st.cands.all (fun s => (s.tree? n).isNone) then (st, [])
+          else (st, [("storage", s!"storage {bytesHex n} exists in the model but not in the implementation")])
+        else ({ st with dumpName := some n, dumpLeft := k, dumpAcc := [] }, [])
+      | _, _ => (st, [("misc", "bad-line")])
+    | _ => (st, [("misc", "bad-line")])
   else if line.startsWith "Y " then
     match st.dumpName with
-    | none => (st, some "Y line outside a dump")
+    | none => (st, [("misc", "Y line outside a dump")])
     | some n =>
       match parseLayerLine (words line) with
       | none =>
-        if line.startsWith "Y - NULLROOT" then (st, some "null root in dump") else (st, some "bad-line")
+        if line.startsWith "Y - NULLROOT" then (st, [("dump", "null root in dump")]) else (st, [("misc", "bad-line")])
       | some pl =>
         let st := { st with dumpAcc := pl :: st.dumpAcc, dumpLeft := st.dumpLeft - 1 }
-        if st.dumpLeft == 0 then finishDump st n else (st, none)
-  else if line.startsWith "WALKERR" then (st, some line)
-  else (st, some "bad-line")
+        if st.dumpLeft == 0 then
+          let (st', e) := finishDump st n
+          (st', match e with | some m => [("dump", m)] | none => [])
+        else (st, [])
+  else if line.startsWith "WALKERR" then (st, [("walker", line)])
+  else (st, [("misc", "bad-line")])
 
 end Yak.SeqCheck
